@@ -1034,6 +1034,104 @@ class TokFeedCallSequence(Contract):
                 'no-writes-of-its-own': len(writes) == 0}
 
 
+# ====================================================================== C05: Parser.feed / feed_byte hand every byte to the tokenizer
+class _CallLog:
+    """call-site stand-in that records the call (ghost) and does nothing else"""
+    def __init__(self, what):
+        self.what = what
+
+    def __call__(self, ip, args, kwargs):
+        ip.ctx.__dict__.setdefault('ghost_parser_calls', []).append((self.what, args, kwargs))
+        return None
+
+
+@contract
+class ParserFeedThroughTokenizer(Contract):
+    """chunking independence, parser side: Parser.feed(data) is exactly `self._tok.feed(data)` followed by one
+    `self._decode()` - for data of ANY kind and length, in particular for one-element chunks - and queues nothing by
+    itself.  With C05.feed-is-a-fold-of-feed_byte (Tokenizer.feed(data) = feed_byte over its bytes) every chunking of a
+    stream performs the same tokenizer steps; a shortcut that answers some chunk shapes without the tokenizer (and so
+    without its state) fails here."""
+    key = 'C05.parser-feed-goes-through-the-tokenizer'
+    target = 'mido.parser:Parser.feed'
+    properties = ('C05', 'C04', 'C06')
+    configs = tuple({'mode': m, 'seq': sq, 'len': ln} for m in ('idle', 'fixed', 'sysex')
+                    for sq in ('bytes', 'bytearray', 'list', 'tuple') for ln in ('any', 1, 2))
+    raises = {}
+    symbolic_only = True
+
+    def hooks(self, cfg):
+        return {raw_function('mido.tokenizer:Tokenizer.feed'): _CallLog('tok.feed'),
+                raw_function('mido.tokenizer:Tokenizer.feed_byte'): _CallLog('tok.feed_byte'),
+                raw_function('mido.parser:Parser._decode'): _CallLog('decode')}
+
+    def inputs(self, h, cfg):
+        p = parser_obj(h, cfg['mode'])
+        pycls = {'bytes': bytes, 'bytearray': bytearray, 'list': list, 'tuple': tuple}[cfg['seq']]
+        h.data = h.int_seq('data', pycls, lo=0, hi=255)
+        if cfg['len'] != 'any':
+            h.assume(length(V(h.data)) == cfg['len'])
+        return [p, h.data], {}
+
+    def ensures(self, h, cfg, a, r):
+        if not h.sym:
+            return {}
+        return _through_tokenizer(h, V(h.data))
+
+
+def _through_tokenizer(h, expected):
+    """the clauses do not depend on HOW the code hands the bytes over (one feed call, several, or feed_byte calls):
+    the bytes given to the parser's own tokenizer, in call order, are exactly `expected`; after the last tokenizer call
+    comes a _decode(); the function queues nothing and changes no tokenizer state by itself."""
+    calls = h.ctx.__dict__.get('ghost_parser_calls', [])
+    tok = attrs_of(h.parser)['_tok']
+    fed = z3.Empty(IntSeq)
+    own, shape = True, True
+    for what, args, kw in calls:
+        if what == 'decode':
+            own = own and args[0] is h.parser and len(args) == 1 and not kw
+            continue
+        own = own and args[0] is tok
+        if len(args) != 2 or kw:
+            shape = False
+            continue
+        x = V(args[1])
+        fed = z3.Concat(fed, z3.Unit(x) if what == 'tok.feed_byte' else x)
+    tcalls = [i for i, c in enumerate(calls) if c[0] != 'decode']
+    out = {'tokenizer-calls-well-formed': shape, 'calls-are-on-the-parsers-own-objects': own}
+    if shape:
+        out['bytes-handed-to-the-tokenizer-are-exactly-the-data-in-order'] = fed == expected
+    out['decode-after-the-last-tokenizer-call'] = (not tcalls) or (calls[-1][0] == 'decode')
+    out['queues-nothing-by-itself'] = new_messages(h.parser) == []
+    out['tokenizer-state-not-touched-by-the-parser-itself'] = all(attrs_of(h.tok)[k] is h.tok0[k] for k in h.tok0)
+    return out
+
+
+@contract
+class ParserFeedByteThroughTokenizer(Contract):
+    key = 'C05.parser-feed_byte-goes-through-the-tokenizer'
+    target = 'mido.parser:Parser.feed_byte'
+    properties = ('C05', 'C04', 'C06')
+    configs = tuple({'mode': m} for m in ('idle', 'fixed', 'sysex'))
+    raises = {}
+    symbolic_only = True
+
+    def hooks(self, cfg):
+        return {raw_function('mido.tokenizer:Tokenizer.feed'): _CallLog('tok.feed'),
+                raw_function('mido.tokenizer:Tokenizer.feed_byte'): _CallLog('tok.feed_byte'),
+                raw_function('mido.parser:Parser._decode'): _CallLog('decode')}
+
+    def inputs(self, h, cfg):
+        p = parser_obj(h, cfg['mode'])
+        h.byte = h.int('byte', 0, 255)
+        return [p, h.byte], {}
+
+    def ensures(self, h, cfg, a, r):
+        if not h.sym:
+            return {}
+        return _through_tokenizer(h, z3.Unit(V(h.byte)))
+
+
 # ====================================================================== ParserQueue (C05, queue-backed variant)
 class FifoModel:
     """ASSUMED contract of queue.Queue (single consumer/producer view): put appends at the tail, get/get_nowait
